@@ -394,6 +394,24 @@ class Engine:
         def newton(*a, **k):
             return eng._newton(*a, **k)
 
+        # the kind of callable handed over as solve= varies with the scenario: a plain function, a
+        # functools.partial with a bound keyword (the parameters after it become keyword-only), or a
+        # bound method whose ext0 / solver are keyword-only
+        kind = ("function", "partial", "method")[int(self.doc.get("seed", 0)) % 3]
+        if kind == "partial":
+            import functools
+
+            def solve_d(A, b, x, dof1, dof0, damping=1.0, offsets=None, ext0=None, solver=spsolve):
+                return eng._solve(A, b, x, dof1, dof0, offsets=offsets, ext0=ext0, solver=solver)
+
+            solve = functools.partial(solve_d, damping=1.0)
+        elif kind == "method":
+
+            class _Solver:
+                def solve(self_, A, b, x, dof1, dof0, *, offsets=None, ext0=None, solver=spsolve):
+                    return eng._solve(A, b, x, dof1, dof0, offsets=offsets, ext0=ext0, solver=solver)
+
+            solve = _Solver().solve
         self._solve_fn = solve
         self._check_fn = check
         self._saved = (_step_mod.newtonrhapson, _newton_mod.perf_counter)
